@@ -64,7 +64,7 @@ ASSUMPTIONS = ['molecule adjacency is symmetric and closed (Graph invariant; the
                'labelled enumeration of 8-atom graphs (about 1e7) is replaced by one representative per isomorphism class under random '
                'renumberings; `exhaustive` refers to the labelled stream (<= 6 atoms quick, <= 7 atoms and <= 5 rings thorough)']
 HAS_DRIVER = True
-EXTRA_MODULES = ['Spec.CycleBasis', 'Model.C06Rings']
+EXTRA_MODULES = ['Spec.CycleBasis', 'Spec.CycleBasisMin', 'Model.C06Rings', 'Model.C06Pid']
 FINDINGS_MODULE = 'ChythonModel.Findings.C06'
 
 K_FIELDS = ['cc', 'ccns', 'skin', 'skinns', 'rc', 'ar', 'ars', 'arom', 'marks']
@@ -72,7 +72,9 @@ PROGRAMS = ['MoleculeContainer add_bond/delete_bond/add_atom/delete_atom/__enter
             'MoleculeContainer.connected_components', 'rings._connected_components(not_special_connectivity)',
             'MoleculeContainer.skin_graph', 'rings._skin_graph(not_special_connectivity)', 'MoleculeContainer.rings_count',
             'MoleculeContainer.sssr', 'MoleculeContainer.atoms_rings', 'MoleculeContainer.atoms_rings_sizes',
-            'MoleculeContainer.calc_labels (ring marks)', 'MoleculeContainer.aromatic_rings', 'rings._canonic_ring', 'rings._ring_scissors', 'rings._ring_adjacency']
+            'MoleculeContainer.calc_labels (ring marks)', 'MoleculeContainer.aromatic_rings', 'rings._canonic_ring', 'rings._ring_scissors', 'rings._ring_adjacency',
+            'rings._bfs (ascending set order)', 'rings._make_pid', 'rings._c_set',
+            'rings._rings_filter (with _connected_rings, _get_unique_chord, _is_condensed_ring; ascending set order)']
 
 
 def generate(ctx):
@@ -700,7 +702,16 @@ def evaluate(cases, build_ok=True):
                 broke('relational', 'check_sssr', f'{tag}: checker verdict {r.get("chk")} on sssr={rings} wire={ints}{_hist_note(histories, ints)}', ints)
             continue
         sizes = ','.join(map(str, sorted(len(x) for x in rings)))
-        if r.get('ref') != sizes:
+        # proved verdict (Props/C06.lean: sssr_minimal_wrt_horton, minimal_wrt_family_iff): minw=1 iff every Horton candidate
+        # is a GF(2) sum of reported rings that are not longer than it, i.e. the reported basis is minimum w.r.t. the Horton
+        # family. Both minimum bases of one matroid have the same size multiset, so (Horton completeness assumed) this
+        # verdict and the comparison with the greedy reference must always agree.
+        if mu > 0:
+            d['minimal-wrt-horton:' + str(r.get('minw'))] += 1
+        if r.get('minw') not in ('0', '1') or (r.get('minw') == '1') != (r.get('ref') == sizes):
+            broke('relational', 'reference-minimum-basis',
+                  f'{tag}: exchange checker minw={r.get("minw")} but sssr sizes {sizes} vs greedy reference {r.get("ref")} wire={ints}', ints)
+        if r.get('ref') != sizes or r.get('minw') == '0':
             gap = gap_class(adj)
             if gap is None:
                 broke('relational', 'minimum-size-multiset',
